@@ -12,7 +12,9 @@
 (***************************************************************************)
 EXTENDS Integers, Sequences, FiniteSets, TLC, Json, SequencesExt
 
-CONSTANTS NParts
+CONSTANTS NParts,
+          Keep,   \* 1 = every case; n > 1 = the covering part (every attribute list and every child list once per tag) + every n-th other case
+          Seed    \* offset of the slice (VERIF_SEED)
 VARIABLES cs, done
 vars == <<cs, done>>
 
@@ -136,7 +138,11 @@ Labels(c) ==
 Rec(c) == [family |-> "jsx", tag |-> c.tag, src |-> Src(c), classic |-> Classic(c), automatic |-> Automatic(c), labels |-> Labels(c),
            nkids |-> Len(KidsSx(c, "classic"))]
 
-ASSUME TLCSet(1, SetToSeq(Cases))
+(* quick sample: every tag x attribute list (no children) and every tag x child list (no attributes), plus a seeded slice of the products *)
+Covering == {c \in Cases : c.attrs = <<>> \/ c.kids = <<>>}
+Kept == IF Keep = 1 THEN Cases
+        ELSE Covering \cup (LET Q == SetToSeq(Cases \ Covering) IN {Q[i] : i \in {j \in 1..Len(Q) : (j + Seed) % Keep = 0}})
+ASSUME TLCSet(1, SetToSeq(Kept))
 ASSUME PrintT(<<"NCASES", Len(TLCGet(1))>>)
 Slice(k) == LET S == TLCGet(1) IN {S[i] : i \in {j \in 1..Len(S) : j % NParts = k - 1}}
 Init == cs = 0 /\ done = "no"
